@@ -47,6 +47,7 @@ package submission
 //@ func newSafeSubmissionState
 //@ props C17
 //@ arith int
+//@ modifies nothing
 //@ site GroupByLogs#1 as gbl
 //@ requires forall n string :: has(groups, n) ==> groups[n] != nil
 //@ loop 1 invariant forall n string :: has(groups, n) ==> groups[n] != nil
@@ -69,7 +70,56 @@ package submission
 //@ func (*safeSubmissionState).collectSCTs
 //@ props C17
 //@ arith int
+//@ modifies nothing
 //@ requires sub != nil
 //@ loop 1 invariant sub.results == old(sub.results)
 //@ loop 1 invariant forall k int :: 0 <= k && k < len(scts) ==> scts[k] != nil && scts[k].SCT != nil && has(sub.results, scts[k].LogURL) && sub.results[scts[k].LogURL] != nil && sub.results[scts[k].LogURL].sct == scts[k].SCT
 //@ ensures [every-returned-sct-is-recorded-for-its-log] forall k int :: 0 <= k && k < len(result) ==> result[k] != nil && result[k].SCT != nil && has(sub.results, result[k].LogURL) && sub.results[result[k].LogURL] != nil && sub.results[result[k].LogURL].sct == result[k].SCT
+
+//@ func completenessError
+//@ props C17
+//@ arith int
+//@ pure
+//@ loop 1 invariant forall n string :: visited(1, n) && !groupComplete[n] ==> len(failedGroups) > 0
+//@ ensures [no-error-means-every-group-with-a-verdict-completed] result == nil ==> (forall n string :: has(groupComplete, n) ==> groupComplete[n])
+
+// GetSCTs: every policy group has a verdict entry from the start (initially "not complete"), so a
+// group that has not reported when the context ends counts as failed; success is reported only when
+// the verdict of every group is "complete".
+//@ func GetSCTs
+//@ props C17
+//@ arith int
+//@ private groupComplete
+//@ site completenessError#1 as ce1
+//@ site completenessError#2 as ce2
+//@ site collectSCTs#1 as cs1
+//@ site collectSCTs#2 as cs2
+//@ requires ctx != nil && submitter != nil
+//@ requires forall n string :: has(groups, n) ==> groups[n] != nil
+//@ loop 1 invariant groupComplete != nil && (forall n string :: has(groups, n) ==> groups[n] != nil && old(has(groups, n))) && (forall n string :: visited(1, n) ==> has(groupComplete, groups[n].Name))
+//@ loop 2 invariant groupComplete != nil && (forall n string :: has(groups, n) ==> groups[n] != nil && has(groupComplete, groups[n].Name))
+//@ loop 3 invariant groupComplete != nil && (forall n string :: has(groups, n) ==> groups[n] != nil && has(groupComplete, groups[n].Name))
+//@ at ce1 assert [an-unreported-group-counts-as-failed-when-the-context-ends] forall n string :: has(groups, n) ==> has(groupComplete, groups[n].Name)
+//@ at ce2 assert [every-policy-group-has-a-verdict] forall n string :: has(groups, n) ==> has(groupComplete, groups[n].Name)
+//@ ensures [success-and-scts-are-the-verdict-over-all-groups] (ce1.called ==> result1 == ce1.res && result0 == cs1.res) && (ce2.called ==> result1 == ce2.res && result0 == cs2.res)
+//@ ensures [some-verdict-is-always-given] ce1.called || ce2.called
+
+//@ func parallelNums
+//@ props C17
+//@ arith int
+//@ pure
+//@ requires forall n string :: has(groups, n) ==> groups[n] != nil
+//@ loop 1 invariant forall n string :: has(groups, n) ==> groups[n] != nil
+//@ fresh result
+//@ ensures [a-fresh-table] result != nil
+
+// The goroutine GetSCTs starts per group: it runs the group race and sends its verdict.
+//@ func GetSCTs$1
+//@ props C17
+//@ modifies nothing
+//@ frame-trusted the group race updates only the submission state it is given (under its mutex) and reports on the channel; it does not touch the caller's policy data or verdict table
+//@ site groupRace#1 as race
+//@ site send#1 as snd
+//@ requires g != nil && submissions != nil && ctx != nil
+//@ at race assert [races-this-group-with-the-shared-state-and-submitter] race.group == g && race.state == submissions && race.submitter == submitter && race.chain == chain && race.asPreChain == asPreChain
+//@ at snd assert [reports-that-races-verdict] snd.x == race.res
